@@ -66,8 +66,30 @@ def plan(pid, tier, seed):
     rng = random.Random(seed * 7919 + sum(ord(c) for c in pid))
     P = {"mc": [], "gen": [], "need": {}}
 
-    def mc(module, cfg, cap, post=ident, simulate=None, timeout=600):
-        P["mc"].append(dict(module=module, cfg=cfg, cap=cap, post=post, simulate=simulate, timeout=timeout))
+    def mc(module, cfg, cap, post=ident, simulate=None, timeout=900, pick=None):
+        P["mc"].append(dict(module=module, cfg=cfg, cap=cap, post=post, simulate=simulate, timeout=timeout, pick=pick))
+
+    def pick_recovering(behs, cap, r):
+        """crash behaviours: most exported images hit known finding F4; take mostly those the spec expects to open"""
+        good = [b for b in behs if any(st.get("x") == "ok" for st in b)]
+        bad = [b for b in behs if not any(st.get("x") == "ok" for st in b)]
+        ng = min(len(good), cap * 3 // 4)
+        nb = min(len(bad), cap - ng)
+        return r.sample(good, ng) + r.sample(bad, nb)
+
+    def crash_runs(n, calls):
+        def g():
+            out = []
+            for k in range(n):
+                cfg = gen.cfg_choices(rng)
+                if rng.random() < 0.3:
+                    cfg = {}
+                st = gen.flush_history(rng, calls, cfg) if rng.random() < 0.5 else gen.purge_history(rng, calls, cfg)
+                out.append(dict(mode=rng.choice(["free", "jitter"]), tag="crashprobe", steps=st,
+                                probes={"crash": {"stride": 1 if q else 1, "per_pos": 6 if q else 16, "cont": True,
+                                                  "bytes": not q}}))
+            return out
+        P["gen"].append(g)
 
     def histories(n, calls, opts, mode="free", small_cache=False, rb=False, tag="rand"):
         def g():
@@ -112,6 +134,11 @@ def plan(pid, tier, seed):
             return out
         P["gen"].append(g)
         P["need"] = dict(calls=500)
+    elif pid in ("C03", "C05"):
+        mc("MC_Conc", "MC_Crash_q.cfg" if q else "MC_Crash_t.cfg", 1200 if q else 10000, pick=pick_recovering,
+           timeout=900 if q else 3000)
+        crash_runs(36 if q else 400, 14 if q else 40)
+        P["need"] = dict(probes=3000, crashes=500)
     elif pid == "C07":
         mc("MC_Conc", "MC_C07_q.cfg" if q else "MC_C07_t.cfg", 1000 if q else 8000, add_obs)
 
@@ -265,7 +292,7 @@ def run_check(pid, tier, seed, keep=False):
         behs = vlib.parse_behaviours(r["out"])
         total = len(behs)
         if total > job["cap"]:
-            behs = rng.sample(behs, job["cap"])
+            behs = job["pick"](behs, job["cap"], rng) if job.get("pick") else rng.sample(behs, job["cap"])
         for b in behs:
             spec_scripts.append(dict(mode="gated", tag="spec:" + job["cfg"], steps=job["post"](b, rng)))
         states += r["distinct"]
